@@ -10,7 +10,7 @@ from hypothesis import strategies as st
 from AegeanTools import fits_tools
 from AegeanTools.exceptions import AegeanError
 from vlib import refs
-from vlib.core import Res, run_check
+from vlib.core import Res, run_check, workdir
 
 PROP = "C20"
 SHARDS = {"quick": 8, "thorough": 16}
@@ -104,7 +104,7 @@ def check_pair_case(c):
     """c = {rows, n, bands: 'all' | list}"""
     res = Res()
     rows, n = c["rows"], c["n"]
-    d = tempfile.mkdtemp(prefix="c20p_")
+    d = workdir("c20p_")
     try:
         path = os.path.join(d, "r.fits")
         write_rows_file(path, rows)
@@ -120,7 +120,7 @@ def check_pair_case(c):
 
 def pairs_custom(rec, name, tier, seed, shard, nshards, n_unused):
     """enumeration of the (rows, n) sub-domain; quick = at-risk pairs, thorough = all pairs"""
-    d = tempfile.mkdtemp(prefix="c20e_")
+    d = workdir("c20e_")
     try:
         if tier == "thorough":
             todo = {}
@@ -212,7 +212,7 @@ def check_content(c):
     res = Res()
     if c["compress"]:
         c = dict(c, ndim=2, bscale=None, rows=max(2, c["rows"]), cols=max(2, c["cols"]), ext=0)
-    d = tempfile.mkdtemp(prefix="c20c_")
+    d = workdir("c20c_")
     try:
         path, full, w, ci = build_content(c, d)
         rows, cols, n = c["rows"], c["cols"], c["n"]
@@ -281,7 +281,7 @@ invalid_case = st.fixed_dictionaries({
 
 def check_invalid(c):
     res = Res()
-    d = tempfile.mkdtemp(prefix="c20i_")
+    d = workdir("c20i_")
     try:
         path = os.path.join(d, "r.fits")
         write_rows_file(path, c["rows"])
